@@ -6,7 +6,7 @@ root = "/verif/seeded"
 names = sys.argv[1:] or sorted(d for d in os.listdir(root) if os.path.isdir(os.path.join(root, d)))
 rows = []
 for n in names:
-    prop = n.split("-")[0]
+    prop = n[:3]
     patch = os.path.join(root, n, "patch.diff")
     p = subprocess.run(["/verif/tools/seedtest.sh", prop, patch], stdout=subprocess.PIPE, stderr=subprocess.STDOUT, text=True)
     sigs = re.findall(r"signature: (.*)", p.stdout)
